@@ -73,7 +73,7 @@ Proof.
   - assert (Ws : st_wf P cs limit (seek p st)) by exact W.
     destruct (write_wf P POK cs limit CS LIM nb (seek p st) Ws) as (W' & X & _).
     split; [exact W'|]. apply extends_footprint in X. exact X.
-  - destruct (close_wf P cs limit CS LIM st W) as (W' & L & Z & NZ). cbn zeta in *.
+  - destruct (close_wf P cs limit st W) as (W' & L & Z & NZ). cbn zeta in *.
     set (st' := close_release true st) in *.
     assert (E : chain P (tbl st') (S (length (tbl st'))) (hd 0 (map st')) = map st').
     { destruct W' as [Wc _]. apply (chain_of_wf P limit); [exact POK|exact Wc|].
@@ -84,7 +84,7 @@ Proof.
     + destruct (Z Z0) as (M & _ & _ & F). split; [exact L|]. split; [intros c H1 _; apply F; exact H1|].
       fold (tbl st'). rewrite M. intros c [].
     + rewrite (NZ Z0). apply footprint_refl.
-  - destruct W as [Wc _]. destruct (unlink_frees_all P POK cs limit CS LIM (sfat st) (map st) Wc) as (L & Z & F).
+  - destruct W as [Wc _]. destruct (unlink_frees_all P POK limit (sfat st) (map st) Wc) as (L & Z & F).
     unfold st_wf, tbl. cbn [sfat map size pos]. split.
     + split; [apply chain_wf_nil|right; split; [reflexivity|cbn; lia]].
     + split; [exact L|]. split; [intros c H1 _; apply F; exact H1|intros c []].
